@@ -30,11 +30,12 @@ ConsumedUpTo(toks, i) == Cardinality({j \in 1..i : Consumes(toks[j])})
 TokValue(toks, vals, i) == IF toks[i].hv = 1 THEN toks[i].val ELSE vals[ConsumedUpTo(toks, i)]
 
 \* bits of token i, as [ok, bits]
-TokBits(toks, vals, i) ==
+TokBitsM(toks, vals, i, mx) ==
   LET tk == toks[i] IN
   IF IsLit(tk) THEN Good(SubSeq(tk.val, 5, Len(tk.val)))
   ELSE IF IsPad(tk) THEN EncodeDtype("pad", tk.n, <<0>>)
-  ELSE EncodeDtype(tk.nm, tk.n, TokValue(toks, vals, i))
+  ELSE EncodeDtypeM(tk.nm, tk.n, TokValue(toks, vals, i), mx)
+TokBits(toks, vals, i) == TokBitsM(toks, vals, i, "saturate")
 
 ConcatAll(seqs) == FoldLeft(LAMBDA acc, q : acc \o q, <<>>, seqs)
 
@@ -44,7 +45,7 @@ DoPack(opts, cls, toks, vals) ==
       need == ConsumedUpTo(toks, k) IN
   IF need # Len(vals) THEN Raises(CreationErr)
   ELSE IF opts.lsb0 /\ \E i \in 1..k : IsVarLen(toks[i]) THEN Raises(AnyDoc)
-  ELSE LET parts == [i \in 1..k |-> TokBits(toks, vals, i)] IN
+  ELSE LET parts == [i \in 1..k |-> TokBitsM(toks, vals, i, opts.mx)] IN
        IF \E i \in 1..k : ~parts[i].ok THEN Raises(CreationErr)
        ELSE LET ordered == [i \in 1..k |-> parts[IF opts.lsb0 THEN k + 1 - i ELSE i].bits] IN
             OkV(VNew(cls, ConcatAll(ordered)))
